@@ -31,7 +31,7 @@ def write(here, prop, tier, seed, ctx, ran, facts, info, violations, known_hits,
         'distinct_nontrivial': len(sites),
         'rule': 'one evaluation per rule instance (rule x anchored construct); distinct = distinct (rule, file:line) '
                 'sites; every instance is non-trivial in that it inspects a construct of the anchored code '
-                '(a rule that finds no instance fails closed)',
+                '(a rule that finds no instance fails closed on the baseline sources; on rewritten sources it is listed under `undecided`)',
         'samples': samples,
         'rules': [{'id': rd.rid, 'template': rd.template, 'statement': rd.desc, 'tier': rd.tier,
                    'instances': sum(1 for r in insts if r.rid == rd.rid),
@@ -47,6 +47,8 @@ def write(here, prop, tier, seed, ctx, ran, facts, info, violations, known_hits,
             'extract_s': info.get('extract_s'),
         },
         'known_findings_hit': known_hits,
+        'undecided': [{'rule': r.rid, 'reason': r.msg, 'changed_sources': r.details.get('changed_sources', [])}
+                      for r in getattr(ctx, 'undecided', [])],
         'not_decided': propinfo.NOT_DECIDED.get(prop, []),
         'notes': ctx.notes,
         'checker_cmd': './check %s --tier %s' % (prop, tier),
